@@ -300,12 +300,13 @@ theorem C14_exc_ignored (c : Case) (hwf : wf c = true) (hb : (model c).err = non
 
 /-- **C14_setattr**: `__setattr__`/`__delattr__` are written only for a frozen class (by argument or by
     inheritance) or an effective on_setattr hook; otherwise `__setattr__` is left alone, except for the reset
-    to `object.__setattr__` below an attrs-made `__setattr__` when no own one was auto-detected. -/
+    to `object.__setattr__` below an attrs-made `__setattr__` — and that reset happens only when the body binds no
+    `__setattr__` of its own, whatever auto_detect says (K8 repaired). -/
 theorem C14_setattr (c : Case) (hwf : wf c = true) (hb : (model c).err = none) :
     (finalDict c).get "__setattr__" =
       (if sFrozen c then .frozenSetattr
        else if sHooks c then .gen
-       else if hookedVisible c && !(sAuto c && owns c "__setattr__") then .objSetattr
+       else if hookedVisible c && !owns c "__setattr__" then .objSetattr
        else untouched c "__setattr__") ∧
     (finalDict c).get "__delattr__" = (if sFrozen c then .frozenDelattr else untouched c "__delattr__") := by
   have hcmp := hcmp_of_wf c hwf
@@ -419,12 +420,13 @@ theorem C14_written_only_if_decided (d : Dec) (k : String) (h : k ∈ writtenKey
 
 /-- **C14_user_methods_kept_dict** (dict build; ANY initial class dict — an association list of any
     length — and any decisions): a key whose content changed was written by the builder, or is a field
-    definition, or the `__setattr__` reset branch ran (and the key is the bookkeeping key, or it is
-    `__setattr__` with no auto-detected own one: K8's branch). -/
+    definition, or the `__setattr__` reset branch ran and the key is attrs' bookkeeping key or a `__setattr__`
+    *the class did not have* (the reset only ever adds `object.__setattr__`, it never replaces one). -/
 theorem C14_user_methods_kept_dict (cd0 : Dict) (d : Dec) (inh : Bool) (k : String)
     (h : (patchOriginal cd0 d inh).get k ≠ cd0.get k) :
     k ∈ writtenKeys d ∨ k ∈ fieldNames ∨
-    (resetsDict cd0 d inh = true ∧ (k = ownSetattrKey ∨ (k = "__setattr__" ∧ d.hasCustom = false))) := by
+    (resetsDict cd0 d inh = true ∧
+      (k = ownSetattrKey ∨ (k = "__setattr__" ∧ cd0.has "__setattr__" = false))) := by
   apply Classical.byContradiction
   intro hn
   simp only [not_or, not_and] at hn
@@ -445,20 +447,21 @@ theorem C14_user_methods_kept_dict (cd0 : Dict) (d : Dec) (inh : Bool) (k : Stri
     have hk1 : (k == ownSetattrKey) = false := by simpa using h3'.1
     by_cases hs : k = "__setattr__"
     · have := h3'.2 hs
-      have hc : d.hasCustom = true := by simpa using this
-      simp [hk1, hc]
+      have hc : cd0.has "__setattr__" = true := by simpa using this
+      have hown : dictOwnSetattr cd0 d = true := by
+        unfold dictOwnSetattr
+        rw [has_written, has_foldl_erase, hc]
+        simp +decide [fieldNames]
+      simp [hk1, hown]
     · have hs' : (k == "__setattr__") = false := by simpa using hs
       simp [hk1, hs']
 
 /-- **C14_user_methods_kept_slots** (slotted rebuild; ANY initial class dict): a key *of the original
     dict* whose content differs in the namespace of the new class was written by the builder, is one of the
-    keys that are deliberately not copied (fields, `__dict__`, `__weakref__`), or no own `__setattr__` was
-    written and the key is the bookkeeping key or (`__setattr__`, nothing auto-detected, hooked direct base). -/
+    keys that are deliberately not copied (fields, `__dict__`, `__weakref__`), or is attrs' bookkeeping key. -/
 theorem C14_user_methods_kept_slots (cd0 : Dict) (d : Dec) (direct : Bool) (k : String)
     (hk : cd0.has k = true) (h : (createSlots cd0 d direct).get k ≠ cd0.get k) :
-    k ∈ writtenKeys d ∨ k ∈ slotsDropped ∨
-    (wroteOwnSetattr d = false ∧
-      (k = ownSetattrKey ∨ (k = "__setattr__" ∧ d.hasCustom = false ∧ direct = true))) := by
+    k ∈ writtenKeys d ∨ k ∈ slotsDropped ∨ (wroteOwnSetattr d = false ∧ k = ownSetattrKey) := by
   apply Classical.byContradiction
   intro hn
   simp only [not_or, not_and] at hn
@@ -480,65 +483,34 @@ theorem C14_user_methods_kept_slots (cd0 : Dict) (d : Dec) (direct : Bool) (k : 
   rw [get_createSlots, hw, hf, hi]
   unfold resetsSlots
   cases hr : wroteOwnSetattr d
-  · have h3' := h3 hr
-    have hk1 : (k == ownSetattrKey) = false := by simpa using h3'.1
+  · have hk1 : (k == ownSetattrKey) = false := by simpa using h3 hr
     by_cases hs : k = "__setattr__"
-    · have := h3'.2 hs
-      cases hc : d.hasCustom <;> cases hd : direct <;> simp_all
+    · subst hs
+      simp [hk1, hk]
     · have hs' : (k == "__setattr__") = false := by simpa using hs
       simp [hk1, hs']
   · simp
 
-/-- **C14_user_methods_kept** (case level): a name the class body binds and the documented table does not
-    tell attrs to write is still bound to the user's own object in the resulting class — with exactly one
-    exception, the listed deviation K8 (`__setattr__` replaced by `object.__setattr__`). -/
+/-- **C14_user_methods_kept** (case level, no exception left): a name the class body binds and the
+    documented table does not tell attrs to write is still bound to the user's own object in the resulting
+    class. -/
 theorem C14_user_methods_kept (c : Case) (hwf : wf c = true) (hb : (model c).err = none) (n : String)
-    (ho : owns c n = true) (ht : toldSlot c n = none) :
-    (finalDict c).get n = .user ∨
-    (n = "__setattr__" ∧ k8 c = true ∧ (finalDict c).get n = .objSetattr) := by
+    (ho : owns c n = true) (ht : toldSlot c n = none) : (finalDict c).get n = .user := by
   have hcmp := hcmp_of_wf c hwf
   have hE : expectErr c = false := (firstError_none_iff_expectErr c hcmp).1 ((built_iff c).1 hb)
   have hnk : n ≠ ownSetattrKey := by
     intro e; subst e
     rw [not_owns_key c hwf] at ho; exact Bool.noConfusion ho
-  by_cases hk : n = "__setattr__" ∧ k8 c = true
-  · right
-    obtain ⟨hn, hk⟩ := hk
-    subst hn
-    refine ⟨rfl, hk, ?_⟩
-    rw [(C14_setattr c hwf hb).1]
-    unfold k8 at hk
-    simp only [Bool.and_eq_true, Bool.not_eq_true', Bool.or_eq_true, beq_iff_eq] at hk
-    obtain ⟨⟨⟨⟨⟨_, ha⟩, _⟩, _⟩, hbase⟩, hvis⟩ := hk
-    have h1 : sFrozen c = false := by
-      cases h : sFrozen c
-      · rfl
-      · simp +decide [toldSlot, h] at ht
-    have h2 : sHooks c = false := by
-      cases h : sHooks c
-      · rfl
-      · simp +decide [toldSlot, h, h1] at ht
-    have hv : hookedVisible c = true := by
-      unfold hookedVisible
-      rcases hvis with hv | hv <;> simp [hbase, hv]
-    simp [h1, h2, hv, ha]
-  · left
-    have hk8' : n = "__setattr__" → k8 c = false := by
-      intro e
-      cases h : k8 c
-      · rfl
-      · exact absurd ⟨e, h⟩ hk
-    have := specName_final_gen c hwf hE n hk8'
-    unfold specName at this
-    have hnk' : (n == ownSetattrKey) = false := by simpa using hnk
-    simp only [hnk', Bool.false_eq_true, if_false, ht, ho, if_true] at this
-    simpa using this
+  have := specName_final_gen c hwf hE n
+  unfold specName at this
+  have hnk' : (n == ownSetattrKey) = false := by simpa using hnk
+  simp only [hnk', Bool.false_eq_true, if_false, ht, ho, if_true] at this
+  simpa using this
 
-/-! ### the model meets the specification; the known deviation -/
+/-! ### the model meets the specification; the repaired deviation -/
 
-/-- **C14_model_meets_spec** -/
-theorem C14_model_meets_spec (c : Case) (hwf : wf c = true) (hk : known c = []) :
-    spec c (model c) = true := by
+/-- **C14_model_meets_spec** (no known deviation is excluded any more: `known c = []` for every case) -/
+theorem C14_model_meets_spec (c : Case) (hwf : wf c = true) : spec c (model c) = true := by
   unfold spec
   cases hE : expectErr c
   · have hcmp := hcmp_of_wf c hwf
@@ -550,10 +522,12 @@ theorem C14_model_meets_spec (c : Case) (hwf : wf c = true) (hk : known c = []) 
     · intro n hn
       exact ⟨(n, (finalDict c).get n), ⟨n, hn, rfl⟩, by simp⟩
     · rintro p ⟨n, _, rfl⟩
-      exact specName_final c hwf hk hE n
+      exact specName_final c hwf hE n
   · simp
 
-/-- the K8 witness (attr.s default, own `__setattr__`, hooked attrs base) -/
+theorem C14_known_empty (c : Case) : known c = [] := rfl
+
+/-- the former K8 witness (attr.s default, own `__setattr__`, hooked attrs base) -/
 def k8Witness : Case :=
   { api := .attrS, oAutoDetect := none, fRepr := .unset, fEq := .unset, fOrder := .unset, fCmp := .unset,
     fInit := .unset, fGss := .unset, fHash := .unset, fUnsafeHash := .unset, oStr := none,
@@ -561,16 +535,21 @@ def k8Witness : Case :=
     onSetattr := .unset, fieldValidator := false, body := ["__setattr__"], attrsBase := .hooked,
     plainMid := false, baseDefines := [], excBase := false, py310 := true }
 
-/-- **K8 witness**: on this well-formed input the model (and the code: it is the replay case of the
-    finding) violates the specification, and `known` names it. -/
-theorem C14_K8_witness : ∃ c, wf c = true ∧ "K8" ∈ known c ∧ spec c (model c) = false :=
-  ⟨k8Witness, by decide, by decide, by decide⟩
+/-- **C14_K8_repaired** (regression; the case is also in corpus/C14): on the former K8 witness — dict and
+    slotted build, hooked base direct or behind a plain class — the user's `__setattr__` is kept, the
+    bookkeeping flag is still reset, and the specification holds. -/
+theorem C14_K8_repaired :
+    (∀ sl ∈ [none, some true, some false], ∀ pm ∈ [false, true],
+      let c := { k8Witness with oSlots := sl, plainMid := pm }
+      wf c = true ∧ (finalDict c).get "__setattr__" = .user ∧
+        (finalDict c).get ownSetattrKey = .vFalse ∧ spec c (model c) = true) := by decide
 
-/-- the same shape with auto-detection on is not a deviation: the own `__setattr__` is kept -/
-theorem C14_K8_needs_no_autodetect :
-    known { k8Witness with oAutoDetect := some true } = [] ∧
-    spec { k8Witness with oAutoDetect := some true } (model { k8Witness with oAutoDetect := some true }) = true :=
-  ⟨by decide, by decide⟩
+/-- without an own `__setattr__` the reset still happens (dict build: anywhere in the MRO; slotted: direct base) -/
+theorem C14_reset_still_happens :
+    (finalDict { k8Witness with body := [] }).get "__setattr__" = .objSetattr ∧
+    (finalDict { k8Witness with body := [], oSlots := some true }).get "__setattr__" = .objSetattr ∧
+    (finalDict { k8Witness with body := [], oSlots := some true, plainMid := true }).get "__setattr__" = .absent :=
+  by decide
 
 /-! ### non-vacuity -/
 
